@@ -161,6 +161,8 @@ def numbers(doc, secnumdepth=2):
                 if b['name'] in ('zqu', 'zqw'):
                     m.user_trace.append('Zu%dv%dw' % (m.v['zqu'], m.v['zqw']))
 
+    blocks(doc.get('pre_counters', []))
+
     def sec(s):
         c = SEC_COUNTER[s['level']]
         if s['star']:
